@@ -441,6 +441,8 @@ func genPlan(g *prng, flavour string) sessPlan {
 func runSession(g *prng, p sessPlan, script []string) (hist []string, trace []string, steps int) {
 	r := newSchedRun(g)
 	r.script = script
+	// when the receive loop looks a reply's call up / decodes into the caller's result (white-box markers for C12)
+	r.markSites = map[string]string{"call:RetrieveCall": "lk", "call:DecodeRes": "dr"}
 	if p.forceAt >= 0 {
 		r.forceStep = p.forceAt
 		r.forceWho = []string{"@closer0", "@cutter"}
